@@ -69,13 +69,18 @@ Definition tag_format (n : node) : Z :=
         let di := arg_int (nth_arg args 3) in
         fmt_for (if si <? di then di else si)
       else if tag =? t_BInt P then
-        fmt_for (match nth_arg args 0 with BIntA z => placec_of z | _ => 0 end)
+        (* "The count written is in 16-bit places": placec * (sizeof(BIntS)/sizeof(U16)) *)
+        fmt_for (match nth_arg args 0 with BIntA z => placec_of z * fp_u16_per_digit P | _ => 0 end)
       else fmt_for 0
     else if (tag =? t_Rec P) || (tag =? t_DEnv P) || (tag =? t_DFluid P) then
       if (fmt_for argc =? 1) && forallb (fun a => fmt_for (arg_int a) =? 1) args then 1 else 0
     else if (tag <? fp_index_limit P) || is_nary tag then
       let si := if is_nary tag then argc else arg_int (nth_arg args 0) in
-      if si <? fp_immed_forms P then fp_std_forms P + si else fmt_for si
+      let f0 := if si <? fp_immed_forms P then fp_std_forms P + si else fmt_for si in
+      (* "A Prog's format index is written in the same format as its count":
+         foam->foamProg.format is argv[3].data, a long *)
+      let pf := fmt_for (match nth_arg args 3 with Int z => z | _ => 0 end) in
+      if (tag =? t_Prog P) && (pf <? f0) then pf else f0
     else
       match multint_x tag with
       | None => 0
@@ -273,6 +278,12 @@ Definition wf_field (c : letter) (fm st : Z) (a : arg) : bool :=
 
 Definition is_Int (a : arg) : bool := match a with Int _ => true | _ => false end.
 
+(* shapes foamTagFormat relies on: Rec/DEnv/DFluid read .data of every argument;
+   a Prog's format field is argv[3] *)
+Definition node_shape_ok (tag : Z) (args : list arg) : bool :=
+  (if (tag =? t_Rec P) || (tag =? t_DEnv P) || (tag =? t_DFluid P) then forallb is_Int args else true) &&
+  (if tag =? t_Prog P then 4 <=? Z.of_nat (length args) else true).
+
 Section WfArgs.
   Variable W : Z -> node -> bool.
   Variable E : Z -> node -> bytes * Z.
@@ -306,7 +317,7 @@ Fixpoint wf_node (st : Z) (n : node) : bool :=
       inrange tag 0 (fp_limit P) &&
       inrange fm 0 (fp_std_forms P + fp_immed_forms P) &&
       (if r_argc row =? -1 then fits fm argc && (argc <? 2147483648) else argc =? r_argc row) &&
-      (if (tag =? t_Rec P) || (tag =? t_DEnv P) || (tag =? t_DFluid P) then forallb is_Int args else true) &&
+      node_shape_ok tag args &&
       (if (fp_index_limit P <=? tag) && negb (r_argc row =? -1)
        then match multint_x tag with Some _ => true | None => false end else true) &&
       wf_args wf_node enc_node row fm O args st
